@@ -29,6 +29,7 @@ type Obligation struct {
 	Outputs []InputVar // result/out-state variables (for replay evaluation)
 	Ctx     *Ctx
 	Expect  string // "unsat" normally; "sat" for vacuity covers
+	Clause  *Clause
 }
 
 type InputVar struct {
@@ -69,6 +70,8 @@ type Ctx struct {
 	preDecls    int
 	exitCount   int
 	exitPCs     [][]string
+	fnSrc       *FuncSrc
+	tsubst      map[*types.TypeParam]types.Type
 }
 
 func newCtx(w *World, specs *Specs, fnName string) *Ctx {
@@ -579,4 +582,12 @@ func (f *Frame) mergeExits(exits []*Exit, resTypes []types.Type) (*State, []Val)
 		delete(m.env, o)
 	}
 	return m, res
+}
+
+// instType applies the verified instance's type-parameter substitution.
+func (c *Ctx) instType(t types.Type) types.Type {
+	if len(c.tsubst) == 0 {
+		return t
+	}
+	return substType(t, c.tsubst)
 }
